@@ -130,6 +130,15 @@ func (ex *Exec) modelled(st *State, ref string, fn *types.Func, recv *Val, args 
 			ex.safety(st, "ticker-interval-positive", pos, "(> "+d.S+" 0)")
 			r := ex.freshVal(r0(), "ticker")
 			st.assume("(< 0 " + r.S + ")")
+			// each call returns a ticker of its own
+			for _, prev := range ex.tickerRefs {
+				st.assume(not(eq(r.S, prev)))
+			}
+			ex.tickerRefs = append(ex.tickerRefs, r.S)
+			// the period a ticker was created with (ghost tickerPeriod(ticker), when declared)
+			if g, ok := ex.eng.cs.Ghosts["tickerPeriod"]; ok && r.Sh != nil && r.Sh.IsLeaf() {
+				ex.writeLoc(st, ex.ghostLoc(g, []*Val{r}), ex.intVal(d.S, types.Typ[types.Int]))
+			}
 			return one(r)
 		}
 	case "time.Since":
